@@ -33,6 +33,7 @@ def run(chk):
     chk.rule("FF6", "zipper: with normalize=False every path multiplies the factor by the MPO's factor and no store overwrites it; "
              "with normalize=True the factor is reset to 1", floor=6)
     chk.rule("FF7", "a sector charge read from a leg enters charge arithmetic weighted by that leg's signature", floor=2)
+    chk.rule("FF8", "overlap recursions are sesquilinear: bra site tensors enter conjugated, ket and operator tensors un-conjugated", floor=25)
     chk.rule("FF3", "phase/modulus split of scalar multiplication: new factor * phase == number * factor", floor=4)
     P = prog.cls(PAR, "_MpsMpoParent")
     O = prog.cls(OBC, "MpsMpoOBC")
@@ -110,6 +111,15 @@ def run(chk):
         chk.verdict("FF2", f, f"Env_sum.{name} sums its members", True if ok else False, f"Env_sum.{name}() does not combine all member environments")
     # ---- FF7 boundary charges of the <bra|op|ket> environment
     e6.run_CK1(chk, "FF7", [ENV, "yastn.tn.mps._measure", COMP, "yastn.tn.mps._initialize", OBC, PAR], floor_sites=2)
+    # ---- FF8 sesquilinearity of the overlap recursions
+    from . import e7
+    n8 = 0
+    for ci in prog.module(ENV).classes.values():
+        for name, f in ci.methods.items():
+            if f.cls is ci and name in ("update_env_to_first", "update_env_to_last", "update_env_", "update_env_op_", "hole",
+                                        "project_ket_on_bra_1", "project_ket_on_bra_2"):
+                n8 += e7.check_conj_typing(chk, "FF8", f, [p for p in f.params[1:2] if p.startswith("vec")])
+    chk.require(n8 >= 25, f"FF8: only {n8} typed contraction operands")
     # ---- FF3
     e8.mul_identity(chk, P.methods["__mul__"])
 
@@ -123,6 +133,7 @@ MUTANTS = [
     ("zipper guard inverted", "yastn/tn/mps/_compression.py", "    if not normalize:\n        psi.factor = psi.factor * a.factor", "    if normalize:\n        psi.factor = psi.factor * a.factor", "FF6"),
     ("zipper overwrites factor", "yastn/tn/mps/_compression.py", "        psi.factor = psi.factor * nS\n\n    tmp = tmp.fuse_legs(axes=((0, 1), 2))", "        psi.factor = nS\n\n    tmp = tmp.fuse_legs(axes=((0, 1), 2))", "FF6"),
     ("boundary charge without signature", "yastn/tn/mps/_env.py", "        n_rt = ket.config.sym.add_charges(legv.t[0], signatures=(legv.s,), new_signature=-1)", "        n_rt = ket.config.sym.add_charges(legv.t[0], new_signature=-1)", "FF7"),
+    ("ket conjugated in Env2", "yastn/tn/mps/_env.py", "        tmp = tensordot(self.ket.A[n], vecR, axes=(2, 0))\n", "        tmp = tensordot(self.ket.A[n].conj(), vecR, axes=(2, 0))\n", "FF8"),
     ("env factor forgets op", "yastn/tn/mps/_env.py", "        return self.bra.factor * self.op.factor * self.ket.factor", "        return self.bra.factor * self.ket.factor", "FF1"),
 ]
 BENIGN = [
